@@ -432,6 +432,7 @@ func extractC20() *lean {
 	c20ResponseCap(l, cl)
 	c20Sources(l)
 	c20CryptoTLS(l)
+	c20Round3(l)
 
 	// registered server flags
 	var flags []string
